@@ -66,6 +66,7 @@ func Features(s *ast.Schema, doc *ast.QueryDocument, op *ast.OperationDefinition
 	}
 	depth := 0
 	spreads := map[string]int{}
+	objKeys := map[string]int{}
 	var walk func(parent *ast.Definition, pf *ast.Field, ss ast.SelectionSet, d int, underRootNode bool)
 	walk = func(parent *ast.Definition, pf *ast.Field, ss ast.SelectionSet, d int, underRootNode bool) {
 		if d > depth {
@@ -195,6 +196,10 @@ func Features(s *ast.Schema, doc *ast.QueryDocument, op *ast.OperationDefinition
 					}
 				}
 				if len(x.SelectionSet) > 0 {
+					objKeys[key]++
+					if objKeys[key] > 1 {
+						fs["object-key-reused"] = true
+					}
 					walk(td, x, x.SelectionSet, d+1, rootNode)
 				}
 			case *ast.InlineFragment:
@@ -239,6 +244,9 @@ func Features(s *ast.Schema, doc *ast.QueryDocument, op *ast.OperationDefinition
 	}
 	for _, vd := range op.VariableDefinitions {
 		fs["var"] = true
+		if vd.Variable == "id" {
+			fs["var-named-id"] = true
+		}
 		_, provided := vars[vd.Variable]
 		if vd.DefaultValue != nil {
 			fs["var-has-default"] = true
